@@ -2,13 +2,12 @@
   hostlist.c: `_next_tok`, `_parse_single_range`, `_parse_range_list`, `_push_range_list`,
   `_push_range_list_with_suffix`, `_hostlist_create_bracketed`, `hostlist_create`.
 
-  DEFECT SWITCHES in this file (unchanged code = what is defined; repaired form in the comment):
-    D15  `rangeTooBig`, `erangeRejected`   (u64 wrap of hi-lo+1; strtoul's ERANGE ignored)
-    D25  `ulongMaxRejected`                 (a bound of exactly 2^64-1 is accepted)
-    D23  `HOSTBUF` / `suffixedName`         (names on the suffix path are cut to 4095 bytes)
-    D16  `boundTextOk`                      (bounds need not be digit strings)
-    D18  `curTok`                           (strncpy into cur_tok[1024] without terminator)
-    D22  `suffixOk`                         (text after the first `]` is never checked for brackets)
+  DEFECT SWITCHES in this file (each reads one field of `cfg : Cfg`, see Basic.lean):
+    D15/D25 `ulongMaxRejected`  (u64 wrap of hi-lo+1, clamped numbers and 2^64-1 itself accepted)
+    D16     `loTextOk`, `hiTextOk` (bounds need not be digit strings)
+    D18     `curTok`            (strncpy into cur_tok[1024] without terminator)
+    D22     `suffixOk`          (brackets outside the first pair of a token are never checked)
+    D23     `suffixedName`      (names on the suffix path are cut to 4095 bytes)
 -/
 import PdshVerif.Hostlist.Push
 
@@ -66,19 +65,25 @@ structure SR where
   width : Nat
   deriving Repr, DecidableEq, Inhabited
 
-/-- DEFECT D15 (a): the size test `range->hi - range->lo + 1 > MAX_RANGE` in `unsigned long`:
-    wraps to 0 for 0..2^64-1.   Repaired form: `hi - lo ≥ MAX_RANGE` (`rangeTooBigFixed`). -/
+/-- the size test `range->hi - range->lo + 1 > MAX_RANGE` in `unsigned long`: wraps to 0 for
+    0..2^64-1 (DEFECT D15).  The repaired test `hi - lo >= MAX_RANGE` agrees with it whenever
+    hi ≠ 2^64-1, and 2^64-1 is refused separately there (`ulongMaxRejected`). -/
 def rangeTooBig (lo hi : Nat) : Bool := addU64 (subU64 hi lo) 1 > MAX_RANGE
+/-- the repaired size test on its own -/
 def rangeTooBigFixed (lo hi : Nat) : Bool := subU64 hi lo ≥ MAX_RANGE
 
-/-- DEFECT D15 (b): `strtoul` clamps numbers ≥ 2^64 to ULONG_MAX and sets ERANGE; the unchanged
-    code never looks at it.   Repaired form: `true` (clamped bound ⇒ "too many hosts"). -/
-def erangeRejected : Bool := false
+/-- DEFECT D15/D25: `strtoul` clamps every number ≥ 2^64 to ULONG_MAX, and ULONG_MAX is the
+    "empty" mark of `hostrange_empty`, ends no `for (j = lo; j <= hi; j++)` and is joined across
+    the wrap by `tail->hi == hr->lo - 1`; the unchanged code accepts it as a bound.
+    Repaired: `range->hi == ULONG_MAX` ⇒ "Too many hosts". -/
+def ulongMaxRejected (cfg : Cfg) (hi : Nat) : Bool := cfg.fixUlongMax && hi = ULONG_MAX
 
 /-- DEFECT D16: the text of a bound is whatever `strtoul` accepts (leading white space, a sign,
     trailing garbage on the low bound when a `-hi` part follows, an empty high bound).
-    Repaired form: `!s.isEmpty && s.all isDigit`. -/
-def boundTextOk (_s : Str) : Bool := true
+    Repaired: `str[strspn(str, "0123456789")] != 0 || (p && (!*p || p[strspn(p, ..)] != 0))` fails
+    (an empty low text is caught by `q == str` as before). -/
+def loTextOk (cfg : Cfg) (s : Str) : Bool := !cfg.fixDigits || s.all isDigit
+def hiTextOk (cfg : Cfg) (s : Str) : Bool := !cfg.fixDigits || (!s.isEmpty && s.all isDigit)
 
 inductive PR where
   | ok (r : SR) (errno : Nat)
@@ -86,49 +91,41 @@ inductive PR where
   deriving Repr, DecidableEq
 
 /-- D16 test applied to the low text and, when a `-` was found, to the high text -/
-def boundsOk (str : Str) : Option Str → Bool
-  | some t => boundTextOk str && boundTextOk t
-  | none => boundTextOk str
+def boundsOk (cfg : Cfg) (str : Str) : Option Str → Bool
+  | some t => loTextOk cfg str && hiTextOk cfg t
+  | none => loTextOk cfg str
 
 /-- `hi = (p && *p) ? strtoul(p, &q, 10) : lo`: the high part is parsed only when non-empty -/
 def hiPartOf : Option Str → Option Strtoul
   | some (c :: t) => some (strtoul (c :: t))
   | _ => none
 
-/-- DEFECT D25: a bound equal to 2^64-1 is accepted although the rest of the library uses that
-    value as a sentinel (`hostrange_empty`: hi == -1 means empty; `for (j = lo; j <= hi; j++)`
-    cannot end; `tail->hi == hr->lo - 1` joins across the wrap).   Repaired form: `true`
-    (refuse hi = ULONG_MAX as too large). -/
-def ulongMaxRejected : Bool := false
-
 /-- the last two tests of `_parse_single_range`: order, size -/
-def rangeCheck (errno width lo hi : Nat) (clamped : Bool) : PR :=
+def rangeCheck (cfg : Cfg) (errno width lo hi : Nat) : PR :=
   if lo > hi then .fail EINVAL .invalidRange
-  else if rangeTooBig lo hi || (erangeRejected && clamped) || (ulongMaxRejected && hi = ULONG_MAX) then
-    .fail ERANGE .tooMany
+  else if rangeTooBig lo hi || ulongMaxRejected cfg hi then .fail ERANGE .tooMany
   else .ok ⟨lo, hi, width⟩ errno
 
 /-- `_parse_single_range(str, &range)`; `errno` is threaded because a stale value can surface
     later (`_parse_range_list` returns -1 without setting it when there are too many ranges) -/
-def parseSingleRange (errno : Nat) (s : Str) : PR :=
+def parseSingleRange (cfg : Cfg) (errno : Nat) (s : Str) : PR :=
   match cutAt '-' s with
   | (str, p) =>
     if (p.bind List.head?) = some '-' then .fail EINVAL .invalidRange   -- "do NOT allow negative numbers"
-    else if !boundsOk str p then
-      .fail EINVAL .invalidRange                                        -- (D16 switch; never fires)
+    else if !boundsOk cfg str p then .fail EINVAL .invalidRange         -- D16 (repaired code only)
     else if !(strtoul str).converted then .fail EINVAL .invalidRange    -- q == str
     else
       match hiPartOf p with
       | some r =>
         -- q == p || *q != '\0'
         if !r.converted || !r.rest.isEmpty then .fail EINVAL .invalidRange
-        else rangeCheck (if r.erange then ERANGE else if (strtoul str).erange then ERANGE else errno)
-               str.length (strtoul str).val r.val ((strtoul str).erange || r.erange)
+        else rangeCheck cfg (if r.erange then ERANGE else if (strtoul str).erange then ERANGE else errno)
+               str.length (strtoul str).val r.val
       | none =>
         -- no high part: q still points into the low part, `*q != '\0'` tests ITS remainder
         if !(strtoul str).rest.isEmpty then .fail EINVAL .invalidRange
-        else rangeCheck (if (strtoul str).erange then ERANGE else errno)
-               str.length (strtoul str).val (strtoul str).val (strtoul str).erange
+        else rangeCheck cfg (if (strtoul str).erange then ERANGE else errno)
+               str.length (strtoul str).val (strtoul str).val
 
 /-! ### `_parse_range_list` -/
 inductive PRL where
@@ -136,18 +133,18 @@ inductive PRL where
   | fail (errno : Nat) (fatal : Fatal)
   deriving Repr, DecidableEq
 
-def parseRangeItems : List Str → Nat → Nat → Array SR → PRL
+def parseRangeItems (cfg : Cfg) : List Str → Nat → Nat → Array SR → PRL
   | [], _, e, acc => .ok acc e
   | it :: rest, count, e, acc =>
     if count = MAX_RANGES then .fail e .none          -- `return -1`, errno NOT set (stale value)
     else
-      match parseSingleRange e it with
-      | .ok r e' => parseRangeItems rest (count + 1) e' (acc.push r)
+      match parseSingleRange cfg e it with
+      | .ok r e' => parseRangeItems cfg rest (count + 1) e' (acc.push r)
       | .fail e' f => .fail e' f
 
 /-- `_parse_range_list(str, ranges, MAX_RANGES)` -/
-def parseRangeList (errno : Nat) (body : Str) : PRL :=
-  parseRangeItems (splitAll ',' body) 0 errno #[]
+def parseRangeList (cfg : Cfg) (errno : Nat) (body : Str) : PRL :=
+  parseRangeItems cfg (splitAll ',' body) 0 errno #[]
 
 /-! ### pushing the parsed ranges -/
 /-- `_push_range_list` -/
@@ -157,22 +154,24 @@ def pushRangeList (h : HL) (pfx : Str) (rs : List SR) : HL :=
 /-- size of `char host[4096]` in `_push_range_list_with_suffix` -/
 def HOSTBUF : Nat := 4096
 
-/-- `snprintf(host, 4096, "%s%0*lu%s", pfx, width, j, sfx)` -/
-def suffixedName (pfx sfx : Str) (w j : Nat) : Str := (pfx ++ fmtPad w j ++ sfx).take (HOSTBUF - 1)
+/-- DEFECT D23: `snprintf(host, 4096, "%s%0*lu%s", pfx, width, j, sfx)` cuts the name to 4095
+    bytes.   Repaired: the buffer is sized from its parts. -/
+def suffixedName (cfg : Cfg) (pfx sfx : Str) (w j : Nat) : Str :=
+  if cfg.fixHostBuf then pfx ++ fmtPad w j ++ sfx else (pfx ++ fmtPad w j ++ sfx).take (HOSTBUF - 1)
 
 /-- one range of `_push_range_list_with_suffix`: `for (j = lo; j <= hi; j++)` with `unsigned long j`
     never ends when hi = 2^64-1 (every round allocates a record) -/
-def pushSuffixRange (h : HL) (pfx sfx : Str) (r : SR) : Outcome HL :=
+def pushSuffixRange (cfg : Cfg) (h : HL) (pfx sfx : Str) (r : SR) : Outcome HL :=
   if r.hi = ULONG_MAX then .diverge
   else .ok ((List.range' r.lo (r.hi + 1 - r.lo)).foldl
-              (fun h j => pushRange h (HRange.mkSingle (suffixedName pfx sfx r.width j))) h)
+              (fun h j => pushRange h (HRange.mkSingle (suffixedName cfg pfx sfx r.width j))) h)
 
 /-- `_push_range_list_with_suffix` -/
-def pushRangeListWithSuffix (h : HL) (pfx sfx : Str) : List SR → Outcome HL
+def pushRangeListWithSuffix (cfg : Cfg) (h : HL) (pfx sfx : Str) : List SR → Outcome HL
   | [] => .ok h
   | r :: rs =>
-    match pushSuffixRange h pfx sfx r with
-    | .ok h' => pushRangeListWithSuffix h' pfx sfx rs
+    match pushSuffixRange cfg h pfx sfx r with
+    | .ok h' => pushRangeListWithSuffix cfg h' pfx sfx rs
     | o => o
 
 /-! ### `_hostlist_create_bracketed` -/
@@ -181,12 +180,23 @@ def CURTOK : Nat := 1024
 
 /-- DEFECT D18: `strncpy(cur_tok, tok, 1023)` writes no terminator when the token has ≥ 1023
     bytes and `cur_tok[1023]` is never initialised; `hostlist_push_host(cur_tok)` then reads an
-    unterminated array (`none`).   Repaired form: `some tok` (push `tok` itself). -/
-def curTok (tok : Str) : Option Str := if tok.length < CURTOK - 1 then some tok else none
+    unterminated array (`none`).   Repaired: `tok` itself is pushed. -/
+def curTok (cfg : Cfg) (tok : Str) : Option Str :=
+  if cfg.fixCurTok || tok.length < CURTOK - 1 then some tok else none
 
-/-- DEFECT D22: whatever follows the first `]` of a token is used as suffix text; stray brackets
-    in it (`a[1]]`, `a[1]b[`) are not noticed.   Repaired form: balanced-bracket test. -/
-def suffixOk (_sfx : Str) : Bool := true
+/-- `_brackets_balanced(str)` of the repaired code: the level never drops below 0 and ends at 0 -/
+def bracketsBalanced : Nat → Str → Bool
+  | lvl, [] => lvl == 0
+  | lvl, c :: cs =>
+    if c = '[' then bracketsBalanced (lvl + 1) cs
+    else if c = ']' then (match lvl with | 0 => false | l + 1 => bracketsBalanced l cs)
+    else bracketsBalanced lvl cs
+
+/-- DEFECT D22: only the first `[`..`]` pair of a token is looked at; a `]` in front of it and
+    whatever follows it are taken as name text (`a][1]`, `a[1]]`, `a[1]b[`).
+    Repaired: `strchr(prefix, ']') || !_brackets_balanced(q + 1)` ⇒ error_unmatched. -/
+def suffixOk (cfg : Cfg) (pfx sfx : Str) : Bool :=
+  !cfg.fixSuffixBal || (!pfx.contains ']' && bracketsBalanced 0 sfx)
 
 /-- parser state: the list built so far and the current `errno` -/
 structure PSt where
@@ -195,50 +205,51 @@ structure PSt where
   deriving Repr, DecidableEq
 
 /-- body of the `while ((tok = _next_tok(sep, &str)))` loop for one token -/
-def pushTok (st : PSt) (tok : Str) : Outcome PSt :=
+def pushTok (cfg : Cfg) (st : PSt) (tok : Str) : Outcome PSt :=
   match cutAt '[' tok with
   | (pfx, some p) =>
     match cutAt ']' p with
     | (body, some sfx) =>
-      match parseRangeList st.errno body with
-      | .fail e f => .null e f
-      | .ok rs e =>
-        if sfx.isEmpty then .ok ⟨pushRangeList st.hl pfx rs.toList, e⟩
-        else if !suffixOk sfx then .null EINVAL .none
-        else
-          match pushRangeListWithSuffix st.hl pfx sfx rs.toList with
-          | .ok h => .ok ⟨h, e⟩
-          | .null e' f => .null e' f
-          | .ub w => .ub w
-          | .diverge => .diverge
+      if !suffixOk cfg pfx sfx then .null EINVAL .none      -- error_unmatched (repaired code only)
+      else
+        match parseRangeList cfg st.errno body with
+        | .fail e f => .null e f
+        | .ok rs e =>
+          if sfx.isEmpty then .ok ⟨pushRangeList st.hl pfx rs.toList, e⟩
+          else
+            match pushRangeListWithSuffix cfg st.hl pfx sfx rs.toList with
+            | .ok h => .ok ⟨h, e⟩
+            | .null e' f => .null e' f
+            | .ub w => .ub w
+            | .diverge => .diverge
     | (_, none) => .null EINVAL .none                 -- error_unmatched
   | (_, none) =>
     if tok.contains ']' then .null EINVAL .none       -- error_unmatched
     else
-      match curTok tok with
+      match curTok cfg tok with
       | none => .ub "cur_tok unterminated"
       | some name =>
         .ok ⟨pushHost st.hl name, if (hostnameCreate name).erange then ERANGE else st.errno⟩
 
-def createToks (st : PSt) : List Str → Outcome PSt
+def createToks (cfg : Cfg) (st : PSt) : List Str → Outcome PSt
   | [] => .ok st
   | t :: ts =>
-    match pushTok st t with
-    | .ok st' => createToks st' ts
+    match pushTok cfg st t with
+    | .ok st' => createToks cfg st' ts
     | o => o
 
 /-- the separators of `hostlist_create`: `"\t, "` -/
 def hlSep : Str := ['\t', ',', ' ']
 
 /-- `hostlist_create(str)` entered with `errno = errno0` -/
-def createFrom (errno0 : Nat) (s : Str) : Outcome HL :=
-  match createToks ⟨HL.new, errno0⟩ (tokens hlSep s) with
+def createFrom (cfg : Cfg) (errno0 : Nat) (s : Str) : Outcome HL :=
+  match createToks cfg ⟨HL.new, errno0⟩ (tokens hlSep s) with
   | .ok st => .ok st.hl
   | .null e f => .null e f
   | .ub w => .ub w
   | .diverge => .diverge
 
 /-- `hostlist_create(str)` (errno = 0 on entry, as the harness arranges) -/
-def create (s : Str) : Outcome HL := createFrom 0 s
+def create (cfg : Cfg) (s : Str) : Outcome HL := createFrom cfg 0 s
 
 end PdshVerif.Hostlist
